@@ -49,7 +49,9 @@ def plan(tier):
                                  "qn:one", "qn:two", "schedule:truncating-then-full", "inverse:-1", "model:holstein",
                                  "model:xxz", "model:generic", "model:qc", "ofs", "equality-checked:direct",
                                  "equality-checked:iterative-converged", "equality-checked:sweep-energy",
-                                 "equality-checked:returned-eigenstate", "state-consistency-checked", "davidson-kernel"],
+                                 "equality-checked:returned-eigenstate", "state-consistency-checked", "davidson-kernel",
+                                 "tree", "tree-solver:davidson", "tree-solver:direct", "tree-equality-checked",
+                                 "tree-state-consistency-checked", "tree-qn:two"],
             "max_refused_frac": 0.2}
     # thresholds leave room for the tree cases (every 5th index) once rv.props.c08_tree exists
     if tier == "quick":
@@ -57,14 +59,14 @@ def plan(tier):
                      "required_counters": {"oracle": 2500, "eigh_direct_calls": 1000, "eigh_iterative_calls": 100,
                                            "runs_with_iterative_solver": 15, "equality_checked": 150,
                                            "state_consistency_checked": 60, "davidson_kernel_runs": 40,
-                                           "optimize_runs": 80}})
+                                           "optimize_runs": 80, "tree_optimize_runs": 20, "tree_micro_energies": 300}})
     else:
         base["required_classes"] = base["required_classes"] + ["ofs:sites-reordered"]
         base.update({"ncases": 3000, "min_nontrivial": 500,
                      "required_counters": {"oracle": 50000, "eigh_direct_calls": 20000, "eigh_iterative_calls": 2000,
                                            "runs_with_iterative_solver": 350, "equality_checked": 3500,
                                            "state_consistency_checked": 1200, "davidson_kernel_runs": 1000,
-                                           "optimize_runs": 1700}})
+                                           "optimize_runs": 1700, "tree_optimize_runs": 400, "tree_micro_energies": 6000}})
     return base
 
 
@@ -391,12 +393,8 @@ def make_schedule(rng, ranks, dim, want_equality, big=False):
 # ------------------------------------------------------------------------------------------------ one run
 def run_case(ctx):
     if ctx.idx % 5 == 4:
-        try:
-            from rv.props import c08_tree
-        except ImportError:
-            c08_tree = None
-        if c08_tree is not None:
-            return c08_tree.run_tree_case(ctx)
+        from rv.props import c08_tree
+        return c08_tree.run_tree_case(ctx)
     if ctx.idx % 10 == 3:
         return run_kernel_case(ctx)
     return run_chain_case(ctx)
